@@ -667,3 +667,47 @@ def truth_edges_final(body, bool_local, want=True):
         if not feeds:
             final.append(e)
     return final or es
+
+
+def outer_leaves(facts, outer, body, op, depth=4, expand_calls=True):
+    """Provenance leaves of `op` (in `body`, a closure nested in `outer` or a helper called from
+    there) expressed in `outer`: aggregates/calls expanded (`leaves`), captured variables resolved
+    through the closure aggregate, parameters of a named helper through its unique call site in
+    outer's scope. Returns [(body the leaf is expressed in, Origin)]."""
+    out = []
+    for o in leaves(body, op, expand_calls=expand_calls):
+        if body is outer or depth <= 0:
+            out.append((body, o))
+            continue
+        if o.kind == "upvar":
+            idx = [p[1] for p in o.projs if p[0] == "field"]
+            site = mir.closure_site(facts, body)
+            if idx and site:
+                pb, pbi, psi, ps = site
+                ops = ps["r"][2]
+                if idx[0] < len(ops) and ops[idx[0]][0] != "const":
+                    out += outer_leaves(facts, outer, pb, ops[idx[0]], depth - 1, expand_calls)
+                    continue
+        if o.kind == "arg" and body.kind in ("fn", "assoc_fn"):
+            sites = [(cb, t) for cb, bi, t in facts.callers().get(body.path, [])]
+            if len(sites) == 1 and len(sites[0][1]["a"]) >= o.data[0]:
+                cb, t = sites[0]
+                a = t["a"][o.data[0] - 1]
+                if a[0] != "const":
+                    out += outer_leaves(facts, outer, cb, a, depth - 1, expand_calls)
+                    continue
+        out.append((body, o))
+    return out
+
+
+def outer_names(facts, outer, body, op, **kw):
+    """names of the leaves of outer_leaves: `arg:<name>` for parameters of `outer`, origin summaries otherwise"""
+    out = set()
+    for b, o in outer_leaves(facts, outer, body, op, **kw):
+        if o.kind == "arg":
+            out.add(("arg:%s" % o.data[1]) if b is outer else ("arg:%s@%s" % (o.data[1], b.path)))
+        elif o.kind == "upvar":
+            out.add("upvar:%s@%s" % (o.data, b.path))
+        else:
+            out.add(mir.origin_summary(o))
+    return out
